@@ -31,8 +31,7 @@ struct SpecReader {
   std::size_t calls;        // primitive calls made so far
   std::size_t fail_at;      // fault plan: the call with this 0-based index fails ...
   int fail_code;            // ... with this ErrorStatus (1..18)
-  std::size_t handle_calls; // GetHandle calls made so far
-  std::int64_t last_ref;    // reference passed to the last GetHandle
+  std::size_t after_fail;   // calls made after a call had already failed (C10: must stay 0)
 
   nop::Status<void> Fail(int code) {
     failed = code;
@@ -41,7 +40,18 @@ struct SpecReader {
   bool Fault() {
     const bool f = calls == fail_at;
     calls += 1;
+    if (failed != 0) after_fail += 1;
     return f;
+  }
+  void Init(const std::uint8_t* bytes, std::size_t length) {
+    src = bytes;
+    len = length;
+    pos = 0;
+    failed = 0;
+    calls = 0;
+    fail_at = ~static_cast<std::size_t>(0);
+    fail_code = static_cast<int>(nop::ErrorStatus::IOError);
+    after_fail = 0;
   }
 
   nop::Status<void> Ensure(std::size_t size) {
@@ -82,6 +92,7 @@ struct SpecWriter {
   std::size_t fail_at;
   int fail_code;
   std::size_t writes;   // calls other than Prepare (C10: a failed Prepare writes nothing)
+  std::size_t after_fail;
 
   nop::Status<void> Fail(int code) {
     failed = code;
@@ -90,7 +101,19 @@ struct SpecWriter {
   bool Fault() {
     const bool f = calls == fail_at;
     calls += 1;
+    if (failed != 0) after_fail += 1;
     return f;
+  }
+  void Init(std::uint8_t* bytes, std::size_t capacity) {
+    dst = bytes;
+    cap = capacity;
+    pos = 0;
+    failed = 0;
+    calls = 0;
+    fail_at = ~static_cast<std::size_t>(0);
+    fail_code = static_cast<int>(nop::ErrorStatus::IOError);
+    writes = 0;
+    after_fail = 0;
   }
 
   nop::Status<void> Prepare(std::size_t size) {
